@@ -60,10 +60,12 @@ static const Scenario kScenarios[] = {
             "a.c b.c c.c hdr", "all", { { "b.o", "hdr", 0, NULL }, { "c.o", "hdr", 0, NULL }, { NULL } } },
   /* 25 */ { "restat_with_deps", { RULES "build o: gend c\nbuild p: genf c2\nbuild x: cc o p\n", NULL, NULL },
             "c c2 hdr", "x", { { "o", "hdr", KEEP_IF_SAME | HALVE, NULL }, { "p", "hdr", KEEP_IF_SAME | HALVE, NULL }, { NULL } } },
-  /* 26 */ { "restat_order_only_newer", { RULES "build mid: gen s\nbuild st: cc s2\nbuild out: cc mid || st\n", NULL, NULL },
-            "s s2", "out", { { "mid", "", KEEP_IF_SAME | HALVE, NULL }, { NULL } } },
+  /* 26 */ { "restat_order_only_newer", { RULES "build mid: gen s\nbuild out: cc mid || stamp\n", NULL, NULL },
+            "s stamp", "out", { { "mid", "", KEEP_IF_SAME | HALVE, NULL }, { NULL } } },
   /* 27 */ { "rspfile_empty_content", { RULES "build o1: cc c1\nbuild app: link2 | o1\nbuild app2: link2 o1\n", NULL, NULL },
             "c1", "app app2", { { NULL } } },
+  /* 28 */ { "depfile_noncanonical_path", { RULES "build gh: cc ghsrc\nbuild o: ccd c || gh\n", NULL, NULL },
+            "ghsrc c", "o", { { "o", "gh", NONCANONICAL_DEPFILE, NULL }, { NULL } } },
 };
 #ifndef SCENARIO
 #define SCENARIO 0
